@@ -32,6 +32,7 @@ RULE = ('C04\'s (reference, actual, options) generator through '
         'outside tmp_dir. Non-trivial: a failing assertion with an exclusion '
         'option in force, or a binary pair differing after offset 0; '
         'distinct by case hash.')
+RULE += ' ' + 'Also: assertTextFilesCorrect with a passing first pair (an excused line when an ignore-substring is in force) before the pair under test; a third of the text cases after an earlier, longer failure of the same assertion in the same tmp_dir; in half of the cases tmp_dir is configured with set_defaults before the directory exists.'
 ASSUMPTIONS = ['the raw-actual file written for a string actual is compared '
                'line by line; a final newline is not significant (C04)']
 
